@@ -145,6 +145,9 @@ class Driver:
         t = build(self.cls, self.D, False, self.seed)
         t.to(self.dtype())
         t.load_state_dict(self.m.state_dict())
+        flags = {n: p.requires_grad for n, p in self.m.named_parameters()}
+        for n, p in t.named_parameters():
+            p.requires_grad_(flags.get(n, True))
         t.train()  # training mode never consults the cache
         return t
 
@@ -187,6 +190,7 @@ class Driver:
             "uc": bool(m.using_cache),
             "dt": "f32" if pd == self.torch.float32 else "f64",
             "occ": [c.weight is not None, c.inverse is not None, c.logabsdet is not None],
+            "fz": not any(p.requires_grad for p in m.parameters()),
         }
 
     def apply(self, name, args):
@@ -235,6 +239,10 @@ class Driver:
             self.dt = d
             ev["d"] = d
             self.bw_since_fill = False
+        elif name == "SetFrozen":
+            for p in m.parameters():
+                p.requires_grad_(not bool(args[0]))
+            ev["b"] = bool(args[0])
         elif name == "Copy":
             import copy as _copy
 
@@ -307,7 +315,7 @@ VARIANTS = ["direct", "train_arg", "parent"]
 
 
 def spec_projection(st):
-    return (bool(st["training"]), bool(st["usingCache"]), str(st["dt"]), (bool(st["cw"]["filled"]), bool(st["ci"]["filled"]), bool(st["cl"]["filled"])))
+    return (bool(st["training"]), bool(st["usingCache"]), str(st["dt"]), (bool(st["cw"]["filled"]), bool(st["ci"]["filled"]), bool(st["cl"]["filled"])), bool(st["frozenP"]))
 
 
 def walk_task(task):
@@ -339,12 +347,23 @@ def walk_task(task):
         if fail:
             fail.update(cls=cls, D=D, uc0=uc, seed=seed, history=list(d.history), step=len(d.history), variant=d.variant)
             out["fails"].append(fail)
-        return (ev["tr"], ev["uc"], ev["dt"], tuple(ev["occ"]))
+        return (ev["tr"], ev["uc"], ev["dt"], tuple(ev["occ"]), ev["fz"])
 
     def strip(lab_args):
         return lab_args
 
-    res = online_cover(g, init, lambda n, a: apply_fn(n, a[:2] if n == "Call" else a), spec_projection, max_steps=max_steps, rnd=_random.Random(seed), random_steps=random_steps)
+    def guard(name, args):
+        # enabling conditions of LinearCache.tla's actions, evaluated on the real object
+        frozen = not any(p.requires_grad for p in d.m.parameters())
+        if name == "OptStep":
+            return d.m.training and not frozen
+        if name == "Eval":
+            return not frozen
+        if name == "SetFrozen":
+            return d.m.training
+        return name != "InplaceEdit"
+
+    res = online_cover(g, init, lambda n, a: apply_fn(n, a[:2] if n == "Call" else a), spec_projection, max_steps=max_steps, rnd=_random.Random(seed), random_steps=random_steps, free_guard=guard, free_steps=400)
     out["pairs_tried"] = res["pairs_tried"]
     for cur, lab, proj in res["left_model"][:3]:
         out["drift"].append("%s (%s): after %s the real object is in %s, which no design of the permissive model allows" % (cls, variant, lab, proj))
@@ -422,7 +441,7 @@ def main(run, replay=None):
     for alias, lad in shapes:
         res = T.run_tlc("LinearCache", T.cfg(constants=consts(alias, lad), invariants=INVS, properties=PROPS, view="View"), name="lc_repaired")
         run.model_must_hold(res, "LinearCache repaired alias=%s lad=%s" % (alias, lad))
-        run.add_tlc(res, "repaired design alias=%s ladsaves=%s" % (alias, lad), require_actions=["Train", "Eval", "UseCache", "Call", "Load", "ToDtype", "Copy"])
+        run.add_tlc(res, "repaired design alias=%s ladsaves=%s" % (alias, lad), require_actions=["Train", "Eval", "UseCache", "Call", "Load", "ToDtype", "Copy", "SetFrozen"])
     # (S') the spec discriminates: designs without invalidation violate Transparent / SameOperations
     derived = []
     for label, kw, prop in [
